@@ -5,7 +5,11 @@
 // choice inside rapid (so shrinking and replay work) but are uniform.
 package gen
 
-import "pgregory.net/rapid"
+import (
+	"math/bits"
+
+	"pgregory.net/rapid"
+)
 
 var bits10 = rapid.SliceOfN(rapid.Bool(), 10, 10)
 var bits20 = rapid.SliceOfN(rapid.Bool(), 20, 20)
@@ -31,6 +35,11 @@ func Uniform(t *rapid.T, lo, hi int, label string) int {
 	n := hi - lo + 1
 	if n <= 64 {
 		return lo + word(bits10.Draw(t, label))*n/1024
+	}
+	if n > 1<<40 {
+		// 128-bit product: ranges as wide as a total weight built from wide weights
+		h, l := bits.Mul64(uint64(word(bits20.Draw(t, label))), uint64(n))
+		return lo + int(h<<44|l>>20)
 	}
 	return lo + word(bits20.Draw(t, label))*n/(1<<20)
 }
